@@ -9,6 +9,41 @@ from hypothesis import strategies as st
 from harness import gen
 from harness.core import Failure, Info
 
+
+def _descendants(cls):
+    out = []
+    for sub in cls.__subclasses__():
+        out.append(sub)
+        out.extend(_descendants(sub))
+    return list(dict.fromkeys(out))
+
+
+def _define_presets():
+    """The process also holds user-defined subclasses of the library's message and part classes (driver authors keep
+    presets such as `class Gain(DefNumber)` with a fixed name). They are never instantiated here; merely having been
+    defined must not change what a plain message parses to."""
+    made = []
+    try:
+        from indi.message import base
+    except Exception:  # noqa: BLE001
+        return made
+    for root in (base.IndiMessagePart, base.IndiMessage):
+        for cls in sorted(_descendants(root), key=lambda c: c.__name__):
+            if not cls.__module__.startswith("indi."):
+                continue
+            for k in range(4):
+
+                def __init__(self, _c=cls, **kw):
+                    kw["name"] = "PRESET"
+                    kw["device"] = "PRESET"
+                    _c.__init__(self, **kw)
+
+                made.append(type(f"Preset{k}{cls.__name__}", (cls,), {"__init__": __init__, "__module__": __name__}))
+    return made
+
+
+_PRESETS = _define_presets()
+
 ID = "C03"
 LEVEL = "exploration"
 RULE = (
@@ -21,7 +56,7 @@ RULE = (
     "serialization byte-identical when all text is in normal form, else idempotent from the second serialization on; foreign "
     "spellings parse to the same view and re-serialize to the canonical bytes; editing a message after it was serialized changes "
     "the next serialization accordingly; a vector built without children and filled by append round-trips and leaves other "
-    "child-less vectors of the family empty. Non-trivial: >= 1 optional attribute present "
+    "child-less vectors of the family empty. The process holds four never-instantiated user subclasses of every library message and part class. Non-trivial: >= 1 optional attribute present "
     "and (>= 2 children or some attribute/text containing a markup, quote or non-ASCII character); distinct = canonical JSON."
 )
 SHARDS = {"quick": 4, "thorough": 16}
